@@ -32,6 +32,7 @@ type Config struct {
 	SecondStore   bool   // add a second badger store "second" (for copy onto another store)
 	NoLog         bool   // no filelog / mutation log
 	ExtraTOML     string
+	Env           []string // extra environment for the next spawn (e.g. VERIF_CRASH_AT=3)
 }
 
 // Node is a running dvidnode process.
@@ -187,6 +188,7 @@ func (n *Node) spawn() error {
 	tomlPath := filepath.Join(n.Cfg.Dir, "config.toml")
 	cmd := exec.Command(n.Bin, tomlPath)
 	cmd.Env = append(os.Environ(), "DVID_ADMIN_TOKEN="+n.Cfg.AdminToken)
+	cmd.Env = append(cmd.Env, n.Cfg.Env...)
 	cmd.Stderr = n.Stderr
 	stdin, err := cmd.StdinPipe()
 	if err != nil {
